@@ -244,7 +244,7 @@ def _cmp(w, what, ya, ref, bound, la, refld, ldb):
 # ---------------------------------------------------------------------------
 
 NESTS = {
-    "actnorm": ["bare", "bare", "bare", "comp", "inv", "glow", "two"],
+    "actnorm": ["bare", "bare", "bare", "comp", "inv", "glow", "two", "multiscale"],
     "batchnorm": ["bare", "bare", "bare", "comp", "inv", "two", "maf", "realnvp"],
 }
 
@@ -276,6 +276,12 @@ def build(cfg, seed):
         root = T.CompositeTransform([layer, lin, other] if cfg["order"] == 0 else [other, lin, layer])
     elif nest == "glow":
         root = T.CompositeTransform([T.SqueezeTransform(), layer, T.OneByOneConvolution(4 * F)])
+    elif nest == "multiscale":
+        # RealNVP-style multiscale stack on images: the second ActNorm only sees half of the channels
+        h, w_ = cfg["hw"]
+        root = T.MultiscaleCompositeTransform(num_transforms=2, split_dim=1)
+        nxt = root.add_transform(T.CompositeTransform([layer, T.OneByOneConvolution(F)]), (F, h, w_))
+        root.add_transform(T.CompositeTransform([T.ActNorm(nxt[0]), T.OneByOneConvolution(nxt[0])]), nxt)
     elif nest == "maf":
         root = flows.MaskedAutoregressiveFlow(features=F, hidden_features=6, num_layers=2, num_blocks_per_layer=1,
                                               use_random_permutations=True, batch_norm_between_layers=True)
@@ -318,8 +324,10 @@ class C14World(World):
         F = rng.pick([1, 2, 2, 3, 4])
         if nest in ("maf", "realnvp", "two"):
             F = max(F, 2)
+        if nest == "multiscale":
+            F = 4
         cfg = {"layer": layer, "nest": nest, "F": F, "label": "%s/%s" % (layer, nest)}
-        cfg["dims"] = 4 if (nest == "glow" or (layer == "actnorm" and nest in ("bare", "comp", "inv") and rng.chance(0.4))) else 2
+        cfg["dims"] = 4 if (nest in ("glow", "multiscale") or (layer == "actnorm" and nest in ("bare", "comp", "inv") and rng.chance(0.4))) else 2
         cfg["hw"] = [rng.pick([1, 2, 3]), rng.pick([1, 2])] if nest != "glow" else [2 * rng.pick([1, 2]), 2]
         cfg["momentum"] = rng.pick([0.01, 0.1, 0.1, 0.5, 0.9])
         cfg["eps"] = rng.pick([1e-5, 1e-3])
@@ -337,9 +345,9 @@ class C14World(World):
     def simplify_cfg(cls, cfg):
         out = []
         if cfg["nest"] not in ("bare",):
-            if cfg["nest"] in ("comp", "inv", "two"):
+            if cfg["nest"] in ("comp", "inv", "two", "multiscale"):
                 out.append(dict(cfg, nest="bare", label="%s/bare" % cfg["layer"]))
-        if cfg["dims"] == 4 and cfg["nest"] != "glow":
+        if cfg["dims"] == 4 and cfg["nest"] not in ("glow", "multiscale"):
             out.append(dict(cfg, dims=2))
         if cfg["F"] > 2 or (cfg["F"] > 1 and cfg["nest"] not in ("maf", "realnvp", "two")):
             out.append(dict(cfg, F=cfg["F"] - 1))
@@ -509,6 +517,10 @@ class C14World(World):
         if self.cfg["nest"] == "glow" and direction == "inverse":
             F, h, w_ = 4 * F, h // 2, w_ // 2
         shape = (rows, F, h, w_) if self.cfg["dims"] == 4 else (rows, F)
+        if self.cfg["nest"] == "multiscale" and direction == "inverse":
+            # the multiscale inverse takes the flattened concatenation of all scales
+            flat = core.seeded(op["x"], (rows, F * h * w_)) * float(op.get("scale", 1.0)) + float(op.get("loc", 0.0)) * 0.1
+            return flat
         x = core.seeded(op["x"], shape)
         # per-feature location / scale, |loc| / scale <= 30
         sc = float(op.get("scale", 1.0))
